@@ -145,7 +145,8 @@ Enc1 ==
        /\ (es.vbr = 0 /\ ~IsDtx1(r, e.r)) =>
             /\ es.br = OPUS_BITRATE_MAX => e.r = MaxFill(r.count, e.mb)
             /\ explicit => e.r \in CbrSizes(es.br, cf.fs, fsz, e.mb)
-            /\ Constant(e.q, e.mb, e.r)
+            \* (OPUS_AUTO has no documented value: one constant size while the settings stand)
+            /\ es.br = OPUS_AUTO => Constant(e.q, e.mb, e.r)
             /\ (Strict /\ es.br = OPUS_AUTO) => e.r = CbrSize(AutoBitrate(cf.fs, cf.ch, fsz), cf.fs, fsz, e.mb)
        \* constrained VBR: long-term rate
        /\ inC => TrExcess(c2) <= 2 * (c2.mx + 16)
@@ -156,7 +157,7 @@ Enc1 ==
             /\ (prv.celt /\ r.count = 1 /\ pay >= 2 /\ e.md = MODE_CELT /\ e.q <= 8 /\ es.br <= 260000) =>   \* (the MDCT layer caps its rate at 260 kb/s per channel)
                  LET rate == (es.br * e.q * 120 + 3000) \div 6000 IN
                  e.res = 0 \/ e.res = prv.res + 64 * pay - rate
-  /\ seen' = IF e.r > 0 /\ r.ok /\ es.vbr = 0 /\ ~IsDtx1(r, e.r) THEN seen \cup {<<e.q, e.mb, e.r>>} ELSE seen
+  /\ seen' = IF e.r > 0 /\ r.ok /\ es.vbr = 0 /\ es.br = OPUS_AUTO /\ ~IsDtx1(r, e.r) THEN seen \cup {<<e.q, e.mb, e.r>>} ELSE seen
   /\ trC' = c2 /\ trS' = s2
   /\ prv' = [res |-> e.res, celt |-> e.r > 0 /\ e.md = MODE_CELT /\ r.ok /\ MdctOnly(r) /\ r.count = 1 /\ SumSeq(r.sizes) >= 2,
               mx |-> Max(prv.mx, ftAny)]
@@ -181,11 +182,11 @@ EncM ==
        /\ (es.vbr = 0 /\ ~dtx) =>
             \* one and the same size while the settings stand; within a byte of the rounded size (the
             \* per-stream split is the encoder's business); OPUS_BITRATE_MAX fills the buffer
-            /\ Constant(e.q, e.mb, e.r)
+            /\ es.br # OPUS_BITRATE_MAX => Constant(e.q, e.mb, e.r)
             /\ explicit => \E x \in MsCbrSizesQ(es.br, e.q, e.mb, S) : Abs(e.r - x) <= 1
             /\ es.br = OPUS_BITRATE_MAX => (e.r = e.mb \/ e.r >= 1276 * S)
        /\ inS => TrExcess(s2) <= 2 * (s2.mx + 16)
-  /\ seen' = IF ok /\ es.vbr = 0 /\ ~dtx THEN seen \cup {<<e.q, e.mb, e.r>>} ELSE seen
+  /\ seen' = IF ok /\ es.vbr = 0 /\ es.br # OPUS_BITRATE_MAX /\ ~dtx THEN seen \cup {<<e.q, e.mb, e.r>>} ELSE seen
   /\ trS' = s2 /\ UNCHANGED <<trC, prv>>
 
 TEnc == /\ l <= Len(Tr) /\ Tr[l].k = "enc"
